@@ -5,6 +5,7 @@ import (
 	"fmt"
 	"regexp"
 	"strings"
+	"unicode/utf8"
 
 	"github.com/verily-src/fhirpath-go/fhirpath/internal/expr"
 	"github.com/verily-src/fhirpath-go/fhirpath/system"
@@ -93,7 +94,7 @@ func Length(ctx *expr.Context, input system.Collection, args ...expr.Expression)
 		return nil, fmt.Errorf("%w, received %v arguments, expected 0", ErrWrongArity, length)
 	}
 
-	result := system.Integer(len(fullString))
+	result := system.Integer(utf8.RuneCountInString(fullString))
 	return system.Collection{result}, nil
 }
 
@@ -225,12 +226,14 @@ func Substring(ctx *expr.Context, input system.Collection, args ...expr.Expressi
 	if err != nil {
 		return nil, err
 	}
-	if int(start) >= len(fullString) {
+	// Positions and lengths count characters (code points), not bytes.
+	chars := []rune(fullString)
+	if start < 0 || int(start) >= len(chars) {
 		return system.Collection{}, nil
 	}
 
 	// Validate optional 2nd integer argument (length).
-	var substringLength int32 = -1
+	end := len(chars)
 	if argLength == 2 {
 		lengthOutput, err := args[1].Evaluate(ctx, input)
 		if err != nil {
@@ -238,19 +241,20 @@ func Substring(ctx *expr.Context, input system.Collection, args ...expr.Expressi
 		} else if length := len(lengthOutput); length != 1 {
 			return nil, fmt.Errorf("%w: received %v arguments, expected 1", ErrWrongArity, length)
 		}
-		substringLength, err = lengthOutput.ToInt32()
+		substringLength, err := lengthOutput.ToInt32()
 		if err != nil {
 			return nil, err
 		}
+		if substringLength < 0 {
+			substringLength = 0
+		}
+		// Compare against the remaining characters so that start+length cannot overflow.
+		if int(substringLength) < len(chars)-int(start) {
+			end = int(start) + int(substringLength)
+		}
 	}
 
-	var result system.String
-	if substringLength > -1 && int(start+substringLength) < len(fullString) {
-		// Substring will not go out of bounds
-		result = system.String(fullString[start : start+substringLength])
-	} else {
-		result = system.String(fullString[start:])
-	}
+	result := system.String(chars[start:end])
 	return system.Collection{result}, nil
 }
 
@@ -286,7 +290,12 @@ func IndexOf(ctx *expr.Context, input system.Collection, args ...expr.Expression
 		return nil, err
 	}
 
-	result := system.Integer(strings.Index(fullString, substring))
+	index := strings.Index(fullString, substring)
+	if index > 0 {
+		// strings.Index yields a byte offset; report the character position.
+		index = utf8.RuneCountInString(fullString[:index])
+	}
+	result := system.Integer(index)
 	return system.Collection{result}, nil
 }
 
